@@ -448,18 +448,32 @@ func runC16(ctx *core.Ctx, pool *par.Pool) {
 	var total xstate.Stats
 	images, distinct, states := 0, 0, 0
 	outcomes := map[string]int{}
-	share := ctx.Budget() / time.Duration(len(cfgs))
+	// the older header must stay usable: histories in which a commit releases overflow pages and truncates the file
+	overflowAlphabet := []O{{K: pagedrv.OBegin}, {K: pagedrv.OBegin, B: 1}, {K: pagedrv.OFree, A: 0}, {K: pagedrv.OFree, A: -1}, {K: pagedrv.OFreeRun, A: 20, B: 12},
+		{K: pagedrv.OFreeEveryOther, A: 0}, {K: pagedrv.OWrite, A: 0, B: pagedrv.WFull}, {K: pagedrv.OCommit}, {K: pagedrv.OReopen}}
+	type c16run struct {
+		cfg      pagedrv.Cfg
+		seed     seed
+		alphabet []O
+		depth    int
+	}
+	var runs []c16run
 	for _, cfg := range cfgs {
-		cfg := cfg
-		var quiet []*xstate.Node
-		seenLog := map[string]bool{}
-		endRun := ctx.Phase(share)
-		endBFS := ctx.Phase(share * 3 / 10)
 		d := depth
 		if cfg.PageSize > 4096 { // every page size the header search has to find; images are large, few states suffice
 			d = 4
 		}
-		st := xstate.BFS(ctx, pool, xstate.Spec{Cfg: cfg, Alphabet: crashAlphabet(true), MaxDepth: d,
+		runs = append(runs, c16run{cfg, seedEmpty, crashAlphabet(true), d})
+	}
+	runs = append(runs, c16run{pagedrv.CfgB, seedOverflow, overflowAlphabet, depth + 1}, c16run{pagedrv.CfgA, seedOverflow, overflowAlphabet, depth + 1})
+	share := ctx.Budget() / time.Duration(len(runs))
+	for _, run := range runs {
+		cfg := run.cfg
+		var quiet []*xstate.Node
+		seenLog := map[string]bool{}
+		endRun := ctx.Phase(share)
+		endBFS := ctx.Phase(share * 3 / 10)
+		st := xstate.BFS(ctx, pool, xstate.Spec{Cfg: cfg, Seed: run.seed.Ops, Alphabet: run.alphabet, MaxDepth: run.depth,
 			OnLevel: func(d int, fresh []*xstate.Node) {
 				for _, n := range fresh {
 					// one image per distinct logical state reached by a commit or reopen
@@ -472,9 +486,9 @@ func runC16(ctx *core.Ctx, pool *par.Pool) {
 		endBFS()
 		total.States += st.States
 		total.Transitions += st.Transitions
-		ctx.Set("depth_"+cfg.Name, st.Depth)
+		ctx.Set("depth_"+cfg.Name+"/"+run.seed.Name, st.Depth)
 		tasks := make([]CorruptTask, 0, len(quiet)+1)
-		tasks = append(tasks, CorruptTask{Type: "corrupt", Cfg: cfg.Name, Path: nil, Both: true})
+		tasks = append(tasks, CorruptTask{Type: "corrupt", Cfg: cfg.Name, Path: run.seed.Ops, Both: true})
 		for i, n := range quiet {
 			tasks = append(tasks, CorruptTask{Type: "corrupt", Cfg: cfg.Name, Path: n.Path(), Both: i%4 == 0})
 		}
